@@ -1856,4 +1856,228 @@ theorem planStream_counter (k : Nat) : ∀ (plan : List (Bool × Burst)) (w : Wo
             rw [List.count_cons_of_ne (by decide)]
         · cases hstep
 
+section
+open OsmoVerif.PyStr
+
+/-! ### mute (C18) -/
+
+/-- while the receiver is muted every burst of a stream takes the NOPE branch and the world
+(in particular the drop counter) is untouched -/
+theorem handleStream_muted (k : Nat) (tk : Trx) (hm : tk.rfMuted = true) :
+    ∀ (stream : List Burst) (w w' : World) (outs : List (List Dgram)), w.trxs[k]? = some tk →
+      handleStream k w stream = .ok (w', outs) →
+      w' = w ∧ outs.length = stream.length ∧
+      ∀ x ∈ outs.zip stream, suppressOut tk x.2.2.2 = .ok x.1 := by
+  intro stream
+  induction stream with
+  | nil =>
+    intro w w' outs _ h
+    simp only [handleStream] at h
+    injection h with h; injection h with h1 h2
+    subst h1; subst h2
+    exact ⟨rfl, rfl, fun x hx => by cases hx⟩
+  | cons b rest ih =>
+    intro w w' outs hk h
+    obtain ⟨j, s, m⟩ := b
+    simp only [handleStream] at h
+    split at h
+    · cases h
+    · rename_i w1 ds hh
+      split at h
+      · cases h
+      · rename_i w2 outs' hrest
+        injection h with h; injection h with h1 h2
+        subst h1; subst h2
+        obtain ⟨self, src, hk', hj, _, _⟩ := handleDataMsg_ok _ _ _ _ _ _ _ hh
+        rw [hk] at hk'; injection hk' with hk'; subst hk'
+        rw [handleDataMsg_muted w k j s m tk src hk hj (.inl hm)] at hh
+        split at hh
+        · rename_i ds' hs
+          injection hh with hh; injection hh with h1 h2
+          subst h1; subst h2
+          obtain ⟨a, b, c⟩ := ih _ _ _ hk hrest
+          refine ⟨a, by simp only [List.length_cons, b], ?_⟩
+          intro x hx
+          simp only [List.zip_cons_cons, List.mem_cons] at hx
+          rcases hx with hx | hx
+          · rw [hx]; exact hs
+          · exact c x hx
+        · cases hh
+
+/-- a muted sender: the forwarder strips the burst, every recipient's call takes the NOPE branch
+and the world is untouched -/
+theorem handleSeq_noburst (j : Nat) (m : Trxd.TxMsg) (hm : m.burst = none) :
+    ∀ (ks : List Nat) (w w' : World) (out : List Dgram),
+      handleSeq j m w ks = .ok (w', out) → w' = w := by
+  intro ks
+  induction ks with
+  | nil =>
+    intro w w' out h
+    simp only [handleSeq] at h
+    injection h with h; injection h with h1 _
+    exact h1.symm
+  | cons k ks ih =>
+    intro w w' out h
+    simp only [handleSeq] at h
+    split at h
+    · cases h
+    · rename_i r hr
+      rw [trans_noburst m _ hm] at h
+      dsimp only at h
+      split at h
+      · cases h
+      · rename_i w1 ds hh
+        obtain ⟨self, src, hk', hj, _, _⟩ := handleDataMsg_ok _ _ _ _ _ _ _ hh
+        rw [handleDataMsg_muted w k j m _ self src hk' hj (.inr rfl)] at hh
+        split at hh
+        · injection hh with hh; injection hh with h1 _
+          subst h1
+          split at h
+          · cases h
+          · rename_i w2 ds' hrest
+            injection h with h; injection h with h1 _
+            subst h1
+            exact ih _ _ _ hrest
+        · cases hh
+
+theorem forwardMsg_muted_sender (w : World) (j : Nat) (s : Trxd.TxMsg) (src : Trx) (fnI : Int)
+    (w' : World) (out : List Dgram) (hj : w.trxs[j]? = some src) (hfn : s.fn = some fnI)
+    (hok : Spec.FreqOk w fnI.toNat) (hm : src.rfMuted = true)
+    (h : forwardMsg w j s = .ok (w', out)) : w' = w := by
+  rw [forwardMsg_eq w j s src fnI hj hfn hok] at h
+  have : fwdInput src s = { s with burst := none } := by simp only [fwdInput, hm, if_true]
+  rw [this] at h
+  exact handleSeq_noburst j _ rfl _ _ _ _ h
+
+/-! ### FAKE_DROP / RFMUTE argument handling (C18) -/
+
+theorem verify_other (cmd : String) (a : List Str) (argc : Nat) (va : Bool)
+    (h : (lit "FAKE_DROP" != lit cmd) = true) : verifyCmd (lit "FAKE_DROP" :: a) cmd argc va = false := by
+  simp only [verifyCmd, h, if_true]
+
+theorem ctrl_fake_drop1 (a : Str) (n : Int) (ha : toInt a = .ok n) :
+    ctrlCmdHandler [lit "FAKE_DROP", a] =
+      if n < 0 then .ok (none, some (-1)) else .ok (some (.drop n 1), some 0) := by
+  have e1 : verifyCmd [lit "FAKE_DROP", a] "SETTA" 1 = false := verify_other _ _ _ _ (by decide)
+  have e2 : verifyCmd [lit "FAKE_DROP", a] "FAKE_TOA" 2 = false := verify_other _ _ _ _ (by decide)
+  have e3 : verifyCmd [lit "FAKE_DROP", a] "FAKE_TOA" 1 = false := verify_other _ _ _ _ (by decide)
+  have e4 : verifyCmd [lit "FAKE_DROP", a] "FAKE_RSSI" 2 = false := verify_other _ _ _ _ (by decide)
+  have e5 : verifyCmd [lit "FAKE_DROP", a] "FAKE_RSSI" 1 = false := verify_other _ _ _ _ (by decide)
+  have e6 : verifyCmd [lit "FAKE_DROP", a] "FAKE_CI" 2 = false := verify_other _ _ _ _ (by decide)
+  have e7 : verifyCmd [lit "FAKE_DROP", a] "FAKE_CI" 1 = false := verify_other _ _ _ _ (by decide)
+  have e8 : verifyCmd [lit "FAKE_DROP", a] "FAKE_DROP" 1 = true := by
+    simp [verifyCmd]
+  unfold ctrlCmdHandler
+  simp only [e1, e2, e3, e4, e5, e6, e7, e8, Bool.false_eq_true, if_false, if_true, arg,
+    List.getElem?_cons_succ, List.getElem?_cons_zero, bind, Except.bind, ha]
+  split <;> rfl
+
+theorem ctrl_fake_drop2 (a b : Str) (n p : Int) (ha : toInt a = .ok n) (hb : toInt b = .ok p) :
+    ctrlCmdHandler [lit "FAKE_DROP", a, b] =
+      if n < 0 then .ok (none, some (-1))
+      else if p ≤ 0 then .ok (none, some (-1))
+      else .ok (some (.drop n p), some 0) := by
+  have e1 : verifyCmd [lit "FAKE_DROP", a, b] "SETTA" 1 = false := verify_other _ _ _ _ (by decide)
+  have e2 : verifyCmd [lit "FAKE_DROP", a, b] "FAKE_TOA" 2 = false := verify_other _ _ _ _ (by decide)
+  have e3 : verifyCmd [lit "FAKE_DROP", a, b] "FAKE_TOA" 1 = false := verify_other _ _ _ _ (by decide)
+  have e4 : verifyCmd [lit "FAKE_DROP", a, b] "FAKE_RSSI" 2 = false := verify_other _ _ _ _ (by decide)
+  have e5 : verifyCmd [lit "FAKE_DROP", a, b] "FAKE_RSSI" 1 = false := verify_other _ _ _ _ (by decide)
+  have e6 : verifyCmd [lit "FAKE_DROP", a, b] "FAKE_CI" 2 = false := verify_other _ _ _ _ (by decide)
+  have e7 : verifyCmd [lit "FAKE_DROP", a, b] "FAKE_CI" 1 = false := verify_other _ _ _ _ (by decide)
+  have e8 : verifyCmd [lit "FAKE_DROP", a, b] "FAKE_DROP" 1 = false := by
+    simp [verifyCmd]
+  have e9 : verifyCmd [lit "FAKE_DROP", a, b] "FAKE_DROP" 2 = true := by
+    simp [verifyCmd]
+  unfold ctrlCmdHandler
+  simp only [e1, e2, e3, e4, e5, e6, e7, e8, e9, Bool.false_eq_true, if_false, if_true, arg,
+    List.getElem?_cons_succ, List.getElem?_cons_zero, bind, Except.bind, ha, hb]
+  split
+  · rfl
+  · split <;> rfl
+
+/-- a FAKE_DROP argument that is not a number: `int()` raises ValueError before any assignment -/
+theorem ctrl_fake_drop1_nan (a : Str) (ha : toInt a = .error .valueError) :
+    ctrlCmdHandler [lit "FAKE_DROP", a] = .error .valueError := by
+  have e1 : verifyCmd [lit "FAKE_DROP", a] "SETTA" 1 = false := verify_other _ _ _ _ (by decide)
+  have e2 : verifyCmd [lit "FAKE_DROP", a] "FAKE_TOA" 2 = false := verify_other _ _ _ _ (by decide)
+  have e3 : verifyCmd [lit "FAKE_DROP", a] "FAKE_TOA" 1 = false := verify_other _ _ _ _ (by decide)
+  have e4 : verifyCmd [lit "FAKE_DROP", a] "FAKE_RSSI" 2 = false := verify_other _ _ _ _ (by decide)
+  have e5 : verifyCmd [lit "FAKE_DROP", a] "FAKE_RSSI" 1 = false := verify_other _ _ _ _ (by decide)
+  have e6 : verifyCmd [lit "FAKE_DROP", a] "FAKE_CI" 2 = false := verify_other _ _ _ _ (by decide)
+  have e7 : verifyCmd [lit "FAKE_DROP", a] "FAKE_CI" 1 = false := verify_other _ _ _ _ (by decide)
+  have e8 : verifyCmd [lit "FAKE_DROP", a] "FAKE_DROP" 1 = true := by
+    simp [verifyCmd]
+  unfold ctrlCmdHandler
+  simp only [e1, e2, e3, e4, e5, e6, e7, e8, Bool.false_eq_true, if_false, if_true, arg,
+    List.getElem?_cons_succ, List.getElem?_cons_zero, bind, Except.bind, ha]
+
+theorem verify_other_mute (cmd : String) (a : List Str) (argc : Nat) (va : Bool)
+    (h : (lit "RFMUTE" != lit cmd) = true) : verifyCmd (lit "RFMUTE" :: a) cmd argc va = false := by
+  simp only [verifyCmd, h, if_true]
+
+theorem ctrl_rfmute (a : Str) : ctrlCmdHandler [lit "RFMUTE", a] = .ok (none, none) := by
+  have e1 : verifyCmd [lit "RFMUTE", a] "SETTA" 1 = false := verify_other_mute _ _ _ _ (by decide)
+  have e2 : verifyCmd [lit "RFMUTE", a] "FAKE_TOA" 2 = false := verify_other_mute _ _ _ _ (by decide)
+  have e3 : verifyCmd [lit "RFMUTE", a] "FAKE_TOA" 1 = false := verify_other_mute _ _ _ _ (by decide)
+  have e4 : verifyCmd [lit "RFMUTE", a] "FAKE_RSSI" 2 = false := verify_other_mute _ _ _ _ (by decide)
+  have e5 : verifyCmd [lit "RFMUTE", a] "FAKE_RSSI" 1 = false := verify_other_mute _ _ _ _ (by decide)
+  have e6 : verifyCmd [lit "RFMUTE", a] "FAKE_CI" 2 = false := verify_other_mute _ _ _ _ (by decide)
+  have e7 : verifyCmd [lit "RFMUTE", a] "FAKE_CI" 1 = false := verify_other_mute _ _ _ _ (by decide)
+  have e8 : verifyCmd [lit "RFMUTE", a] "FAKE_DROP" 1 = false := verify_other_mute _ _ _ _ (by decide)
+  have e9 : verifyCmd [lit "RFMUTE", a] "FAKE_DROP" 2 = false := verify_other_mute _ _ _ _ (by decide)
+  have e10 : verifyCmd [lit "RFMUTE", a] "FAKE_TRXC_DELAY" 1 = false := verify_other_mute _ _ _ _ (by decide)
+  unfold ctrlCmdHandler
+  simp only [e1, e2, e3, e4, e5, e6, e7, e8, e9, e10, Bool.false_eq_true, if_false]
+  rfl
+
+theorem common_rfmute (trx : Trx) (a : Str) (v : Int) (ha : toInt a = .ok v) :
+    commonCmd trx [lit "RFMUTE", a] = .ok (.patch (.mute (decide (v > 0))) 0) := by
+  have e1 : verifyCmd [lit "RFMUTE", a] "POWERON" 0 = false := verify_other_mute _ _ _ _ (by decide)
+  have e2 : verifyCmd [lit "RFMUTE", a] "POWEROFF" 0 = false := verify_other_mute _ _ _ _ (by decide)
+  have e3 : verifyCmd [lit "RFMUTE", a] "RXTUNE" 1 = false := verify_other_mute _ _ _ _ (by decide)
+  have e4 : verifyCmd [lit "RFMUTE", a] "TXTUNE" 1 = false := verify_other_mute _ _ _ _ (by decide)
+  have e5 : verifyCmd [lit "RFMUTE", a] "MEASURE" 1 = false := verify_other_mute _ _ _ _ (by decide)
+  have e6 : verifyCmd [lit "RFMUTE", a] "SETFH" 4 true = false := verify_other_mute _ _ _ _ (by decide)
+  have e7 : verifyCmd [lit "RFMUTE", a] "SETFORMAT" 1 = false := verify_other_mute _ _ _ _ (by decide)
+  have e8 : verifyCmd [lit "RFMUTE", a] "SETPOWER" 1 = false := verify_other_mute _ _ _ _ (by decide)
+  have e9 : verifyCmd [lit "RFMUTE", a] "NOMTXPOWER" 0 = false := verify_other_mute _ _ _ _ (by decide)
+  have e10 : verifyCmd [lit "RFMUTE", a] "RFMUTE" 1 = true := by simp [verifyCmd]
+  unfold commonCmd
+  simp only [e1, e2, e3, e4, e5, e6, e7, e8, e9, e10, Bool.false_eq_true, if_false, if_true, arg,
+    List.getElem?_cons_succ, List.getElem?_cons_zero, bind, Except.bind, ha]
+  rfl
+
+/-- `CMD RFMUTE v` sets `rf_muted := (v > 0)` of the addressed transceiver, status 0 -/
+theorem parse_rfmute (w : World) (i : Nat) (t : Trx) (a : Str) (v : Int) (hi : w.trxs[i]? = some t)
+    (ha : toInt a = .ok v) :
+    parseCmd w i [lit "RFMUTE", a] =
+      .ok (setTrx w i (fun t => { t with rfMuted := decide (v > 0) }), (0, [])) := by
+  unfold parseCmd
+  simp only [ctrl_rfmute, bind, Except.bind, hi, common_rfmute t a v ha, applyAction, pure, Except.pure]
+  rfl
+
+/-- `CMD FAKE_DROP n`: rejected (status −1, world unchanged) when `n < 0`, else exactly
+`burst_drop_amount := n, burst_drop_period := 1` -/
+theorem parse_fake_drop1 (w : World) (i : Nat) (a : Str) (n : Int) (ha : toInt a = .ok n) :
+    parseCmd w i [lit "FAKE_DROP", a] =
+      if n < 0 then .ok (w, (-1, []))
+      else .ok (setTrx w i (fun t => { t with dropAmount := n, dropPeriod := 1 }), (0, [])) := by
+  unfold parseCmd
+  rw [ctrl_fake_drop1 a n ha]
+  split <;> rfl
+
+theorem parse_fake_drop2 (w : World) (i : Nat) (a b : Str) (n p : Int) (ha : toInt a = .ok n)
+    (hb : toInt b = .ok p) :
+    parseCmd w i [lit "FAKE_DROP", a, b] =
+      if n < 0 ∨ p ≤ 0 then .ok (w, (-1, []))
+      else .ok (setTrx w i (fun t => { t with dropAmount := n, dropPeriod := p }), (0, [])) := by
+  unfold parseCmd
+  rw [ctrl_fake_drop2 a b n p ha hb]
+  by_cases h1 : n < 0
+  · simp only [h1, if_true, true_or]; rfl
+  · by_cases h2 : p ≤ 0
+    · simp only [h1, h2, if_true, if_false, or_true]; rfl
+    · simp only [h1, h2, if_false, or_self]; rfl
+end
+
 end OsmoVerif.World
